@@ -156,4 +156,5 @@ def class_vs_definition(ctx):
 def run(ctx):
     streams.hist_corr(ctx, ents=R.ENTRIES)
     streams.fn_corr(ctx, ents=[e for e in R.ENTRIES if e.fn_model] + R.FN_ENTRIES)
+    streams.presentation_variants(ctx, fn_ents=[e for e in R.ENTRIES if e.fn_model] + R.FN_ENTRIES, hist_ents=R.ENTRIES)
     class_vs_definition(ctx)
